@@ -632,7 +632,7 @@ def pfSchema : Schema := { enums := [pfEnum], msgs := [] }
 def pfKind (k : String) : Option (Sum Kind Name) :=
   match k with
   | "enum" => some (.inl (.enum (ascii "PE")))
-  | "Int64Value" | "Int32Value" | "UInt64Value" | "UInt32Value" | "BoolValue" | "StringValue" | "BytesValue" | "FieldMask" => some (.inr (wkt k))
+  | "Int64Value" | "Int32Value" | "UInt64Value" | "UInt32Value" | "BoolValue" | "StringValue" | "BytesValue" | "FieldMask" | "Duration" => some (.inr (wkt k))
   | other => (kindOf other []).map .inl
 
 def noOracle : Oracle := fun _ _ => none
@@ -648,6 +648,8 @@ def handlePF (k : String) (text : Bytes) (out : List String) : String :=
     let o := String.intercalate " " out
     if o == m then (if m == "err" then "OK b=pf-err" else "OK nt b=pf-ok") else s!"VIOL text form of {k}: impl={o} model/spec={m}"
   | some (.inr ref) =>
+    -- Duration texts whose fraction Go rounds through float64 are outside the exact model (oracle territory in tc/ts)
+    if ref == wDuration && (parseDurationGo text).isNone then "OK b=pf-duration-float-rounding" else
     match parseMessage noOracle ref text, out with
     | .error _, ["err"] => "OK b=pf-err"
     | .ok es, "okm" :: rest =>
